@@ -119,6 +119,8 @@ var c06Features = []struct{ method, params string }{
 	{"resources/list", "{}"}, {"resources/read", `{"uri":"file:///r"}`}, {"resources/templates/list", "{}"},
 	{"completion/complete", `{"ref":{"type":"ref/prompt","name":"p"},"argument":{"name":"a","value":"v"}}`},
 	{"logging/setLevel", `{"level":"debug"}`}, {"resources/subscribe", `{"uri":"file:///r"}`}, {"resources/unsubscribe", `{"uri":"file:///r"}`},
+	// a method the application has registered itself (AddReceivingCustomMethod): gated like any feature
+	{"acme/search", `{}`}, {"acme/search", ""},
 }
 
 func (g *c06Gen) next(httpOnly bool) c06Msg {
@@ -226,6 +228,23 @@ func TestVerifC06(t *testing.T) {
 	})
 }
 
+// c06Negotiated is the version an accepted legacy initialize settles on: the requested one if the handshake can
+// serve it, the latest legacy version otherwise.
+func c06Negotiated(raw string) string {
+	var m struct {
+		Params struct {
+			ProtocolVersion string `json:"protocolVersion"`
+		} `json:"params"`
+	}
+	json.Unmarshal([]byte(strings.SplitN(raw, "\n", 2)[0]), &m)
+	for _, v := range c06Supported[1:] {
+		if v == m.Params.ProtocolVersion {
+			return v
+		}
+	}
+	return c06Supported[1]
+}
+
 type c06Reply struct {
 	Status int
 	OK     bool
@@ -279,6 +298,14 @@ func runC06(c *vh.Case, spec c06Spec) {
 	server.AddPrompt(&mcp.Prompt{Name: "p"}, func(context.Context, *mcp.GetPromptRequest) (*mcp.GetPromptResult, error) {
 		return &mcp.GetPromptResult{}, nil
 	})
+	var nCustom atomic.Int64
+	if err := mcp.AddReceivingCustomMethod(server, "acme/search", func(context.Context, *mcp.ServerSession, *c02DynParams) (*c02DynResult, error) {
+		nCustom.Add(1)
+		return &c02DynResult{}, nil
+	}); err != nil {
+		c.Inconclusive("registering the custom method: %v", err)
+		return
+	}
 	server.AddResource(&mcp.Resource{URI: "file:///r", Name: "r"}, func(context.Context, *mcp.ReadResourceRequest) (*mcp.ReadResourceResult, error) {
 		return &mcp.ReadResourceResult{Contents: []*mcp.ResourceContents{{URI: "file:///r", Text: "x"}}}, nil
 	})
@@ -304,6 +331,7 @@ func runC06(c *vh.Case, spec c06Spec) {
 	// ---- reference model
 	var (
 		initName  string // clientInfo.name of the accepted initialize ("" = none)
+		initVer   string // the version that initialize negotiated: what the session's InitializeParams must go on showing
 		initd     bool
 		mixed     bool
 		wantInitd int64
@@ -406,6 +434,7 @@ func runC06(c *vh.Case, spec c06Spec) {
 					return
 				}
 				initName = m.Name
+				initVer = c06Negotiated(m.Raw)
 			} else {
 				rejects++
 				if rep.OK {
@@ -469,8 +498,12 @@ func runC06(c *vh.Case, spec c06Spec) {
 			}
 		}
 		// rejected messages leave the session state unchanged
-		if snapshot != initName {
-			bad("state-changed-by-rejected-message", "session InitializeParams.ClientInfo.Name is %q, reference model says %q", snapshot, initName)
+		if want := initName + "|" + initVer; snapshot != want {
+			bad("state-changed-by-rejected-message", "session InitializeParams (clientInfo.name|protocolVersion) is %q, reference model says %q", snapshot, want)
+			return
+		}
+		if initName == "" && nCustom.Load() != 0 {
+			bad("served-before-initialize", "the application's custom method ran %d time(s) before any initialize had been accepted", nCustom.Load())
 			return
 		}
 		if nInitd.Load() != wantInitd {
@@ -489,7 +522,7 @@ func runC06(c *vh.Case, spec c06Spec) {
 				InitializeParams:  &mcp.InitializeParams{ProtocolVersion: "2025-06-18", ClientInfo: &mcp.Implementation{Name: "preset", Version: "1"}, Capabilities: &mcp.ClientCapabilities{}},
 				InitializedParams: &mcp.InitializedParams{},
 			}}
-			initName, initd = "preset", true
+			initName, initVer, initd = "preset", "2025-06-18", true
 		}
 		ss, err := server.Connect(ctx, &mcp.IOTransport{Reader: sr, Writer: sw}, sso)
 		if err != nil {
@@ -523,9 +556,9 @@ func runC06(c *vh.Case, spec c06Spec) {
 			rmu.Lock()
 			rep := replies[m.ID]
 			rmu.Unlock()
-			snap := ""
+			snap := "|"
 			if p := ss.InitializeParams(); p != nil && p.ClientInfo != nil {
-				snap = p.ClientInfo.Name
+				snap = p.ClientInfo.Name + "|" + p.ProtocolVersion
 			}
 			log.Add("msg", "i", i, "sym", m.Sym, "meta", m.Meta, "ok", rep.OK, "code", rep.Code, "seen", rep.Seen)
 			decide(i, m, rep, takeReached(), snap, false)
